@@ -42,6 +42,18 @@ BUILT = {
          "Exhaustive TLC check over all client capability sets x server options x relay situations that the relay never lets binary be negotiated without a tunnel, never raises the protocol above 4 or above the client's, only adds its tmux constraints to the server's configuration and only narrows the action; bound to the code by pushing exported cases through the real handshake() with a real server role and requiring exactly the rewrites the spec computes, and by sequences of four real transfers (success, fault, stop on either side, success) through one chain of 1 or 2 real relays, judging the action/configuration at both ends, the relays' return to standby, pass-through probes in both directions and file equality of successful transfers.",
          "Trusts TLC and the harness; (tunnel and Windows newline) and (server wants directories, client cannot) are excluded as unreachable / refused combinations; recovery runs are outside tmux and without tunnel; Ctrl-C ending only in the Relay model.",
          "2/C14", "relay"),
+ "C05": ("TLA+ spec Filter.tla (output pump, input pump, handler goroutine, stop prompt, zmodem session, drag upload, wrapper exit) checked by TLC incl. liveness; recorded real NewTrzszFilter sessions validated against FilterTrace.tla; exported behaviours (FilterGen.tla) replayed; real trzsz wrapper runs",
+         "Exhaustive TLC model check of the filter's concurrent pumps and handler over option sets and histories of up to two transfers (PassThroughOut/In, PtrClearedOnEveryExit, NoStuckFlags, ExitPassed, []<>ModePass); bound to the code by recording, per pump turn of a real filter on blocking pipes, the relation between bytes fed and bytes written for seeded chunk streams of every kind (binary, CSI/OSC/DCS, near-miss triggers, zmodem-like and OSC52 fragments, path-like input) under every option set after real histories (completed, failed, stopped, refused transfers, zmodem sessions, drag uploads), replaying exported behaviours, and running the real trzsz binary over pipe and pty for exit codes 0/1/2/42/255 and signals.",
+         "Trusts TLC, the harness pipes (one chunk per Read) and the fake zenity; Windows drag paths, tunnel connector and UploadFiles API not exercised; three genuine defects are listed in known_findings.txt (prompt left open at the end of a transfer, skipUploadCommand stuck after a silent drag upload, wrapper loses the last output at exit).",
+         "2/C05", "filter"),
+ "C06": ("TLA+ spec Detector.tla (Detect written from the property, ordered id memory with pruning) checked by TLC; exported token-level sessions (DetectorGen.tla) replayed into real trzszDetector (client/relay/relay+tmux) and a real TrzszFilter; recorded runs validated against DetectorTrace.tla",
+         "Exhaustive TLC model check over chunk sequences of trigger / partial trigger / finished-marker / control-mode tokens and id shapes (AtMostOnePerChunk, FieldsAsAdvertised, ShownFormInert, RelayFormStillRecognised, ReplaySuppressed, ScrollbackSuppressed, FreshIdFires); bound to the code by concretising tens of thousands of exported sessions with seeded modes, versions, ids, ports and prefixes and replaying them into real detectors and into a real filter (one #ACT per fired chunk, advertised version/port/id observed), including 300-chunk histories across the 100/50 pruning threshold and the first line real trz/tsz processes print.",
+         "Trusts TLC and the concretiser; inputs the property does not decide (7-12 digit ids, 15-digit ids ending 00, control-mode framing on some lines only, port 0 with tunnel) are never generated; replay through a TrzszRelay object is left to C13/C14.",
+         "2/C06", "detector"),
+ "C15": ("TLA+ spec Archive.tla (scan, reader loop turns, writer with writeAll's short-count loop, source resize) checked by TLC; exported (tree, read sizes, write segmentation) cases (ArchiveGen.tla) replayed through the real archive reader/writer; recorded runs validated against ArchiveTrace.tla",
+         "Exhaustive TLC model check over small trees, every read size and every independent write segmentation (Reconstructed, AnnouncedIsProduced, HeaderNeverInPayload, OneOpenFile, ShrinkIsError, WrittenIsPrefix); bound to the code by replaying thousands of exported cases and validating recorded runs of the real newArchiveReader -> archiveFileWriter.Write (driven by the real writeAll) on materialised trees, including 50/100/300-entry trees with descriptor counts from /proc/self/fd, unicode names, files of several read buffers, sources shrinking or growing between scan and read, and RLIMIT_NOFILE=64.",
+         "Trusts TLC, /proc/self/fd accounting and SHA-256; the full protocol-4 transfer path is covered under C01 (archive mode) rather than here; the largest model config needs ~6M states (thorough).",
+         "2/C15", "archive"),
 }
 checks = []
 for p in props:
